@@ -128,6 +128,7 @@ type mustPassResult struct {
 	Alarmed  []string `json:"alarmed"`
 	Expected []string `json:"expected_binding_alarms"`
 	Skipped  []string `json:"skipped"`
+	Unrelated int     `json:"not_run_touching_no_package_of_this_property,omitempty"`
 }
 
 func runMustPass(id string) *mustPassResult {
@@ -144,6 +145,29 @@ func runMustPass(id string) *mustPassResult {
 	}
 	type out struct {
 		name, verdict, detail string
+	}
+	// a change that touches no package in which a function of this property lives cannot alter one of its
+	// VCs (bodies are read per function, callees through their contracts, contract files are not patched):
+	// only the changes that do are run (the full cross product is what tools/benign.sh does)
+	if dirs := propertyDirs(id); len(dirs) > 0 {
+		var rel []string
+		for _, p := range patches {
+			data, _ := os.ReadFile(p)
+			hit := false
+			for _, l := range strings.Split(string(data), "\n") {
+				if strings.HasPrefix(l, "+++ b/") || strings.HasPrefix(l, "--- a/") {
+					if dirs[filepath.Dir(strings.TrimSpace(l[6:]))] {
+						hit = true
+					}
+				}
+			}
+			if hit {
+				rel = append(rel, p)
+			} else {
+				res.Unrelated++
+			}
+		}
+		patches = rel
 	}
 	results := make([]out, len(patches))
 	sem := make(chan struct{}, 4)
@@ -207,4 +231,29 @@ func runMustPass(id string) *mustPassResult {
 		}
 	}
 	return res
+}
+
+// propertyDirs: the package directories of the functions listed for a property (nil = unknown, run everything).
+func propertyDirs(id string) map[string]bool {
+	pkgDir := map[string]string{"scheduler": "pkg/scheduler", "runner": "pkg/runner", "executor": "pkg/executor", "variables": "pkg/variables",
+		"output": "pkg/output", "utils": "pkg/utils", "task": "pkg/task", "config": "internal/config", "watch": "internal/watch", "main": "cmd/taskctl"}
+	pc := loadProps()[id]
+	if pc == nil {
+		return nil
+	}
+	dirs := map[string]bool{}
+	for _, f := range append(append([]string{}, pc.Functions...), pc.Sweep...) {
+		name := strings.SplitN(f, "|", 2)[0]
+		d, ok := pkgDir[strings.SplitN(name, ".", 2)[0]]
+		if !ok {
+			return nil
+		}
+		dirs[d] = true
+	}
+	for _, lp := range pc.LemmaPkgs {
+		if d, ok := pkgDir[lp]; ok {
+			dirs[d] = true
+		}
+	}
+	return dirs
 }
